@@ -40,6 +40,9 @@ VARIANTS = {
     "split_ai": dict(split_ai=True),
     "noop_cmds": dict(noop_cmds=6),
     "all": dict(extra_human_cp=1, repeat_cp=4, split_ai=True, noop_cmds=4),
+    # redundant human checkpoints after SOME human edits only, agent edits split or repeated
+    "some_human": dict(extra_human_cp=(1, 2), repeat_cp=4, split_ai=True),
+    "some_human_repeat": dict(extra_human_cp=(1, 3), repeat_cp=8),
 }
 
 
@@ -85,7 +88,7 @@ def run(ctx):
     r = ctx.rng
     items = []
     for i in range(n):
-        vs = list(VARIANTS) if ctx.tier == "thorough" else r.shuffle(list(VARIANTS))[:3]
+        vs = list(VARIANTS) if ctx.tier == "thorough" else r.shuffle(list(VARIANTS))[:4]
         items.append((ctx.scratch, ctx.seed, i, {"variants": vs, "tie": ctx.model_ok}))
     res = C.parallel_map(scenario, items)
     violations, obligations, n_tie, tie_bad, hist_v = [], [], 0, [], {}
